@@ -202,10 +202,7 @@ def auto_discharge(facts, s, cache):
     return None
 
 
-def run(ctx):
-    facts = ctx.bin
-    g = ctx.grammar
-    P = "C17-R1"
+def rule_panic_audit(ctx, facts, P="C17-R1"):
     ss = sites(facts)
     hb = handwritten(facts)
     ctx.check(len(hb) >= 40 and len(ss) >= 20, P, "anchor|coverage", "hand-written bodies audited: %d, panic sites enumerated: %d (floors 40 / 20)" % (len(hb), len(ss)), "")
@@ -242,6 +239,12 @@ def run(ctx):
         if not done:
             ctx.bad(P, "guard|" + key, "panic site `%s`: %s" % (s["sig"], last), where)
     ctx.note("panic sites: %d auto-discharged, %d by reviewed rows, table size %d" % (n_auto, n_tab, len(TABLE)))
+
+
+def run(ctx):
+    facts = ctx.bin
+    g = ctx.grammar
+    rule_panic_audit(ctx, facts, "C17-R1")
     # ---- R2 grammar ------------------------------------------------------------------------------
     P = "C17-R2"
     prod = gram.g11_no_recursion(ctx, g, P)
